@@ -33,6 +33,7 @@ import (
 	"sort"
 	"strconv"
 	"strings"
+	"sync"
 	"time"
 
 	"github.com/bitcoin-sv/block-headers-service/config"
@@ -273,6 +274,40 @@ func (r *c14run) runCase(input, class string) error {
 			obs = st
 		}
 		r.emit(input, obs, class)
+	case "C":
+		// one framed round trip repeated by several goroutines at once (the codec keeps process-wide state: the
+		// binary free list); used by --only replays of a concurrent case, see concurrent()
+		if len(f) != 5 {
+			return bad
+		}
+		net, e3 := c14Atou32(f[3])
+		if e3 != nil {
+			return bad
+		}
+		msg, err := c14Parse(f[4])
+		if err != nil {
+			return err
+		}
+		want := c14FrameTrip(msg, pver, net)
+		obs := want
+		var mu sync.Mutex
+		var wg sync.WaitGroup
+		for gi := 0; gi < 16; gi++ {
+			wg.Add(1)
+			go func() {
+				defer wg.Done()
+				for it := 0; it < 4000; it++ {
+					if o := c14FrameTrip(msg, pver, net); o != want {
+						mu.Lock()
+						obs = o
+						mu.Unlock()
+						return
+					}
+				}
+			}()
+		}
+		wg.Wait()
+		r.emit(input, obs, class)
 	case "D":
 		if len(f) != 5 {
 			return bad
@@ -380,10 +415,89 @@ func (r *c14run) runCase(input, class string) error {
 	return nil
 }
 
+// c14FrameTrip: WriteMessage + ReadMessage of one message, the observable of an "F" case (no allocation guard,
+// no limit change: safe to call from several goroutines)
+func c14FrameTrip(msg wire.Message, pver, net uint32) (obs string) {
+	defer func() {
+		if rec := recover(); rec != nil {
+			obs = "PANIC"
+		}
+	}()
+	var buf bytes.Buffer
+	if _, err := wire.WriteMessageWithEncodingN(&buf, msg, pver, wire.BitcoinNet(net), wire.BaseEncoding); err != nil {
+		return c14ErrClass(err) + "|-"
+	}
+	frame := buf.Bytes()
+	rd := bytes.NewReader(frame)
+	_, m2, _, err := wire.ReadMessageWithEncodingN(rd, pver, wire.BitcoinNet(net), wire.BaseEncoding)
+	if err != nil {
+		return c14Bytes(frame) + "|" + c14ErrClass(err)
+	}
+	return fmt.Sprintf("%s|%s pos=%d", c14Bytes(frame), c14Summarize(m2), len(frame)-rd.Len())
+}
+
+// concurrent: the peers of a running service encode and decode at the same time, each on its own connection.
+// 16 goroutines run framed round trips of their OWN messages simultaneously; every goroutine's observables must be
+// what the same round trip gives alone (= what the model says).  Each message is reported as a "C" case with the
+// observable seen in the concurrent run.
+func (r *c14run) concurrent(g *c14gen, prod uint32) {
+	type job struct {
+		input    string
+		msg      wire.Message
+		pver, nt uint32
+		obs      string
+	}
+	const workers = 16
+	per := r.c.Pick(12, 60)
+	rounds := r.c.Pick(1500, 6000)
+	kinds := []string{"version", "headers", "getheaders", "inv", "addr", "ping", "pong", "reject", "feefilter", "verack"}
+	jobs := make([][]*job, workers)
+	wire.SetLimits(prod)
+	for w := 0; w < workers; w++ {
+		for i := 0; i < per; i++ {
+			pver := g.pver()
+			m := g.msg(kinds[(w+i)%len(kinds)], pver, false, false)
+			nt := c14Nets[(w+i)%len(c14Nets)]
+			in := fmt.Sprintf("C %d %d %d %s", pver, prod, nt, c14Summarize(m))
+			// the message the case line denotes is the parsed one (as for F cases)
+			pm, err := c14Parse(c14Summarize(m))
+			if err != nil {
+				continue
+			}
+			jobs[w] = append(jobs[w], &job{input: in, msg: pm, pver: pver, nt: nt})
+		}
+	}
+	var wg sync.WaitGroup
+	for w := 0; w < workers; w++ {
+		wg.Add(1)
+		go func(mine []*job) {
+			defer wg.Done()
+			for it := 0; it < rounds; it++ {
+				j := mine[it%len(mine)]
+				o := c14FrameTrip(j.msg, j.pver, j.nt)
+				if j.obs == "" {
+					j.obs = o
+				} else if o != j.obs && !strings.HasPrefix(j.obs, "!") {
+					j.obs = "!" + o // a repetition of the same round trip gave a different answer
+				}
+			}
+		}(jobs[w])
+	}
+	wg.Wait()
+	for w := 0; w < workers; w++ {
+		for _, j := range jobs[w] {
+			if j.obs == "" {
+				continue
+			}
+			r.emit(j.input, strings.TrimPrefix(j.obs, "!"), "C:concurrent")
+		}
+	}
+}
+
 func c14Class(input string) string {
 	f := strings.SplitN(input, " ", 5)
 	switch f[0] {
-	case "P", "F":
+	case "P", "F", "C":
 		s := f[len(f)-1]
 		if i := strings.IndexByte(s, ':'); i > 0 {
 			return f[0] + ":" + s[:i]
@@ -545,6 +659,8 @@ func runC14(c *Ctx) error {
 			}
 		}
 	}
+	// 3b. the same round trips from 16 goroutines at once
+	r.concurrent(g, prod)
 	// 4. hostile payloads and streams
 	if err := r.hostile(g, run); err != nil {
 		return err
